@@ -128,6 +128,21 @@ fn main() {
                 };
                 format!("lex_errors=0 parse_errors=0 nodes={} header_nodes={} header_decls={} malformed={} header_malformed={}", tree.num_parse_nodes(), hdr.num_parse_nodes(), hdr.num_declarations(), mal_tree, mal_hdr)
             }
+            // C17: the XML dumps of the tree and of its header, hex-encoded (compared structurally by vlib/witness_header.py)
+            "deltaxml" => {
+                let tokens = penne::delta::lexer::lex(&bytes, "replay.pn");
+                let nlex = tokens.errors().map(|e| e.errors.len()).unwrap_or(0);
+                if nlex > 0 { return format!("lex_errors={} parse_errors=-", nlex); }
+                let tree = penne::delta::parser::parse(&tokens);
+                let npar = tree.errors(&tokens).map(|e| e.errors.len()).unwrap_or(0);
+                if npar > 0 { return format!("lex_errors=0 parse_errors={}", npar); }
+                let hdr = tree.build_header();
+                let src = std::str::from_utf8(&bytes).unwrap_or("");
+                let hex = |s: String| s.bytes().map(|b| format!("{:02x}", b)).collect::<String>();
+                let t: Vec<String> = tree.as_xml(&tokens, src).collect();
+                let h: Vec<String> = hdr.as_xml(&tokens, src).collect();
+                format!("lex_errors=0 parse_errors=0 tree={} header={}", hex(t.join("\n")), hex(h.join("\n")))
+            }
             _ => "unknown-mode".to_string(),
         }
     });
